@@ -83,6 +83,13 @@ Fixpoint pairs_ok (l : list val) : bool :=
 Lemma inexact_pair_sym a b : inexact_pair a b = inexact_pair b a.
 Proof. destruct a, b; cbn; try reflexivity; destruct (fits64 _); reflexivity. Qed.
 
+Lemma eq_pair_exact t x : inexact_pair t x = false -> eq_pair t x = cmp_pair CEq t x.
+Proof.
+  unfold eq_pair, inexact_pair, cmp_pair. destruct t, x; cbn [rat_like andb]; try reflexivity; cbn [norm_kind];
+    try (destruct (fits64 _); [reflexivity | discriminate]).
+  intros _. cbn [as_num as_den as_int]. rewrite !Z.mul_1_r. reflexivity.
+Qed.
+
 Lemma eq_chain_exact t : canonical t = true -> forall l, forallb canonical l = true -> adj_ok t l = true ->
   eq_chain t l = RBool (forallb (fun x => val_eqb x t) l).
 Proof.
@@ -92,7 +99,7 @@ Proof.
   assert (Htx : inexact_pair t x = false) by (rewrite inexact_pair_sym; exact Hxt).
   destruct (denote_canonical t Ct) as (nt & dt & Dt & Pt & Nt & Dnt).
   destruct (denote_canonical x Cx) as (nx & dx & Dx & Px & Nx & Dnx).
-  cbn [eq_chain forallb]. rewrite (cmp_pair_exact CEq t x nt dt nx dx Htx Dt Dx Nt Dnt Nx Dnx), Htx.
+  cbn [eq_chain forallb]. rewrite (eq_pair_exact t x Htx), (cmp_pair_exact CEq t x nt dt nx dx Htx Dt Dx Nt Dnt Nx Dnx).
   change (cmp_z CEq (nt * dx) (nx * dt)) with (qeq (nt, dt) (nx, dx)).
   rewrite (canonical_qeq t x _ _ Ct Cx Dt Dx).
   destruct (val_eqb t x) eqn:E.
